@@ -5,6 +5,9 @@
 (* strings; -simulate samples long ones.  Families:                         *)
 (*   "classical"  X, CX, CCX (every placement)                              *)
 (*   "sections"   classical + identity + H(0), Z(1), T(2) + barrier (C11/C12) *)
+(*   "xhbar"      X gates, barriers and H: many short classical sections that   *)
+(*                cancel or shrink, with barriers inside and between them     *)
+(*                (several sections of one circuit get replaced: C12)         *)
 (*   "cxnet"      CX networks (qubit permutations, linear maps) + H(0): the   *)
 (*                sections a re-synthesis can shorten or relabel (C12)       *)
 (*   "full"       every kind the library has, phases k*pi/8      (C13/C14)  *)
@@ -36,6 +39,7 @@ Alphabet ==
   CASE Family = "classical" -> X1 \cup CX2 \cup CCX3
     [] Family = "sections" -> X1 \cup CX2 \cup CCX3 \cup MCX4 \cup Bar \cup {G("I", "I", <<NQ - 1>>, 0)}
                               \cup {G("H", "H", <<0>>, 0), G("Z", "Z", <<1 % NQ>>, 0), G("T", "T", <<(NQ - 1)>>, 0)}
+    [] Family = "xhbar" -> X1 \cup Bar \cup {G("H", "H", <<0>>, 0), G("H", "H", <<1 % NQ>>, 0)}
     [] Family = "cxnet" -> CX2 \cup {G("H", "H", <<0>>, 0)}
     [] Family = "full" -> X1 \cup CX2 \cup CCX3 \cup MCX4 \cup Bar \cup {G("I", "I", <<0>>, 0)} \cup Single("H") \cup Single("Z") \cup Single("S")
                           \cup Single("T") \cup Single("Y") \cup CZ2 \cup SW2 \cup CP2 \cup MCZ3 \cup MCX3 \cup MCZ4
